@@ -393,12 +393,50 @@ theorem step_inv {ig : List Nat} {st : Builder × List Nat} {vs : List Bool → 
           simp only [hx, hy, hc, Option.map_some] at gx gy gc
           simp only [gx, gy, gc]
 
+/-- a request never switches gate de-duplication on or off -/
+theorem step_cacheOn {ig : List Nat} {st : Builder × List Nat} {vs : List Bool → List Bool}
+    (h : RunInv ig st vs) (r : Req) : (step st r).1.cacheOn = st.1.cacheOn := by
+  obtain ⟨b, rs⟩ := st
+  have lt : ∀ {i w}, rs[i]? = some w → w < b.counter := fun hi => h.lt _ (mem_of_getElem? hi)
+  cases r with
+  | xor x y =>
+    simp only [step]
+    cases hx : rs[x]? <;> cases hy : rs[y]? <;> simp only
+    exact (xor_post h.wf (lt hx) (lt hy)).2.1.cacheOn
+  | and x y =>
+    simp only [step]
+    cases hx : rs[x]? <;> cases hy : rs[y]? <;> simp only
+    exact (and_post h.wf (lt hx) (lt hy)).2.1.cacheOn
+  | or x y =>
+    simp only [step]
+    cases hx : rs[x]? <;> cases hy : rs[y]? <;> simp only
+    exact (or_post h.wf (lt hx) (lt hy)).2.1.cacheOn
+  | eq x y =>
+    simp only [step]
+    cases hx : rs[x]? <;> cases hy : rs[y]? <;> simp only
+    exact (eq_post h.wf (lt hx) (lt hy)).2.1.cacheOn
+  | not x =>
+    simp only [step]
+    cases hx : rs[x]? <;> simp only
+    exact (not_post h.wf (lt hx)).2.1.cacheOn
+  | mux s x0 x1 =>
+    simp only [step]
+    cases hs : rs[s]? <;> cases hx0 : rs[x0]? <;> cases hx1 : rs[x1]? <;> simp only
+    exact (mux_post h.wf (lt hs) (lt hx0) (lt hx1)).2.1.cacheOn
+  | adder x y c =>
+    simp only [step]
+    cases hx : rs[x]? <;> cases hy : rs[y]? <;> cases hc : rs[c]? <;> simp only
+    exact (adder_post h.wf (lt hx) (lt hy) (lt hc)).2.1.cacheOn
+
 /-- the initial state -/
 theorem new_wf (ig : List Nat) (cacheOn : Bool) : WF (Builder.new ig cacheOn) := by
-  refine ⟨by simp [Builder.new], ?_, ?_, ?_⟩
+  refine ⟨by simp [Builder.new], ?_, ?_, ?_, ?_, ?_, ?_⟩
   · intro i g h; simp [Builder.new] at h
   · intro g w h; simp [Builder.new] at h
   · intro a n h; simp [Builder.new] at h
+  · intro i x y h; simp [Builder.new] at h
+  · intro _ i x y h; simp [Builder.new] at h
+  · intro _ i j x y x' y' h; simp [Builder.new] at h
 
 theorem init_inv (ig : List Nat) (cacheOn : Bool) :
     RunInv ig (Builder.new ig cacheOn, initResults ig) (fun inp => false :: true :: inp) := by
@@ -426,6 +464,19 @@ theorem run_inv (ig : List Nat) (cacheOn : Bool) (reqs : List Req) :
     intro st vs h
     simp only [List.foldl_cons]
     exact ih _ _ (step_inv h r)
+
+theorem run_cacheOn (ig : List Nat) (cacheOn : Bool) (reqs : List Req) :
+    (run ig cacheOn reqs).1.cacheOn = cacheOn := by
+  suffices ∀ (st : Builder × List Nat) (vs : List Bool → List Bool), RunInv ig st vs →
+      (reqs.foldl step st).1.cacheOn = st.1.cacheOn from by
+    have := this _ _ (init_inv ig cacheOn)
+    simpa [run, Builder.new] using this
+  induction reqs with
+  | nil => intro st vs _; rfl
+  | cons r rs ih =>
+    intro st vs h
+    simp only [List.foldl_cons]
+    rw [ih _ _ (step_inv h r), step_cacheOn h r]
 
 end Req
 end GV
